@@ -524,8 +524,7 @@ Definition sys_lchown (c : ctx) (f : fs) (p : bytes) (u g : N) : fs * result :=
       let md := m_mode m in
       let md' := match i_kind n with
                  | KDir _ _ => md
-                 | _ => if N.eqb u no_id && N.eqb g no_id then md else
-                        let a := clear_bits md S_ISUID in
+                 | _ => let a := clear_bits md S_ISUID in   (* even when both ids are -1 *)
                         if negb (N.eqb (N.land md S_IXGRP) 0) then clear_bits a S_ISGID else a
                  end in
       (put f i (set_meta n (with_mode (with_owner m u' g') md')), ROk)
